@@ -137,7 +137,7 @@ else:
 RE = {'none': 0, 'eager': 1, 'lazy': 2}
 AB = {'never': 0, 'always': 1, 'threshold': 2}
 SC = {'all': dict(XV_SCAN=0), 'n1': dict(XV_SCAN=1, XV_SCAN_N=1), 'n2': dict(XV_SCAN=1, XV_SCAN_N=2), 'n3': dict(XV_SCAN=1, XV_SCAN_N=3)}
-UNW = 6     # every loop of the lowered text and of the harness runs over a shape: number_epochs (3) slots, E <= 3 entries, N <= 3 scan steps
+UNW = 4     # every loop of the lowered text and of the harness runs over a shape: number_epochs (3) slots, E <= 3 entries, N <= 3 scan steps
 def R(id, entry, mode='SEQ', defs=None, tiers=('quick', 'thorough'), note='', cls='shape-complete', **kw):
     return dict(id=id, entry=entry, mode=mode, defs=defs or {}, tiers=list(tiers), cls=cls, unwind=UNW, note=note, **kw)
 RUNS = []
